@@ -17,12 +17,14 @@ PAIR_AL = [1, 4, 1004, 1008, 1012, 1016, 2020]
 TRIPLES = [[1, 1, 1], [1008, 1008, 1008], [1004, 4, 1004], [1012, 1012, 1012], [3, 2021, 1], [1000, 20, 1000],
            [2020, 1, 2020]]
 LONG = [[700, 1, 1300, 4, 1008, 1012, 250, 250, 1004, 2000, 3, 500]]
-CODINGS = ['pos', 'zero', 'fill']
+CODINGS = ['pos', 'zero', 'fill', 'ws']
 
 
 def content(coding, n, off, seed):
     if coding == 'pos':
         return blk_ref.position_code(off % 251 + n, seed)[off % 251:]
+    if coding == 'ws':
+        return (b' \n\t\r' * (n // 4 + 1))[:n]
     return (b'\x00' if coding == 'zero' else b'\x40') * n
 
 
